@@ -884,8 +884,8 @@ lyd_validate_autodel_case_dflt(struct lyd_node **first, struct lyd_node **node, 
 
         if (!iter) {
             /* there are only default nodes of the case meaning it does not exist and neither should any default nodes
-             * of the case, remove this one default node */
-            if (lyd_validate_autodel_node_del(first, *node, mod, 0, node, NULL, NULL, diff)) {
+             * of the case, remove this one default node (an NP container is gone as a whole, put it into the diff) */
+            if (lyd_validate_autodel_node_del(first, *node, mod, 1, node, NULL, NULL, diff)) {
                 node_autodel = 1;
             }
             break;
